@@ -22,7 +22,7 @@ TraceSigEv ==
   /\ IsEv("sig")
   /\ LET e == Trace[l]
          f == e.fmt
-         expectFail == e.fail \in {"callback_error", "invalid_type", "unknown_key_id"} /\ ~(e.fail = "unknown_key_id" /\ e.method = "dpkg-sig")
+         expectFail == e.fail \in {"callback_error", "invalid_type", "unknown_key_id"}
          req ==
            IF expectFail THEN
                 Cl(~e.built, "C10.failed_signing_not_reported_as_built")
@@ -37,9 +37,8 @@ TraceSigEv ==
                      \cup (IF IsCallback(e) THEN {} ELSE
                              Cl(e.verifies_over = <<SigRange(f, e.method)>>, "C10.verifies_over_exact_bytes")
                              \cup Cl(e.gpg \in {"ok", "na"}, "C10.gpg_verifies")
-                             \* as-is deviation DpkgSigIgnoresKeyID: clear-signing always uses the primary key of the key file
-                             \cup Cl(e.keyid = "" \/ e.sig_keyid = e.keyid,
-                                     IF e.method = "dpkg-sig" THEN "C10.signed_with_requested_key@DpkgSigIgnoresKeyID" ELSE "C10.signed_with_requested_key")
+                             \* (clear-signing used to take the primary key whatever was asked for: KF-C10-4, repaired)
+                             \cup Cl(e.keyid = "" \/ e.sig_keyid = e.keyid, "C10.signed_with_requested_key")
                              \cup (IF e.method = "dpkg-sig"
                                    THEN Cl(Len(e.manifest) = 3 /\ \A i \in 1..Len(e.manifest) : e.manifest[i].names_stored_member /\ e.manifest[i].digests_match,
                                            "C10.dpkgsig_manifest_matches_members")
@@ -92,7 +91,6 @@ TraceKeyShape ==
   /\ UNCHANGED <<cid, ncases, x>>
 
 (* SignFlow.tla, spec -> code: the terminal state of every behaviour TLC exported, replayed on the real packagers.      *)
-(* (dpkg-sig with a requested key id: the open finding KF-C10-4 - clear-signing always uses the primary key.)          *)
 TraceSignFlow ==
   /\ IsEv("signflow")
   /\ LET e == Trace[l]
@@ -102,10 +100,9 @@ TraceSignFlow ==
                    /\ (e.tlc.outcome = "built" =>
                          IF e.argv.how = "keyfile" /\ e.argv.keyid = "none" THEN e.obs.signer \in MaySign(e.argv) ELSE e.obs.signer = e.tlc.signer)
          prefers == e.tlc.outcome = "built" /\ e.obs.outcome = "built" /\ e.obs.signer # e.tlc.signer
-         kf == e.argv.fmt = "dpkg-sig" /\ e.argv.how = "keyfile" /\ (e.argv.keyid # "none" \/ e.argv.layout = "offline_primary")
-     IN Rec((IF agrees THEN {} ELSE IF kf THEN {"C10.signed_with_requested_key@DpkgSigIgnoresKeyID"} ELSE {"C10.signing_terminal_state_as_specified"})
+     IN Rec((IF agrees THEN {} ELSE {"C10.signing_terminal_state_as_specified"})
             \cup Cl(e.obs.outcome # "signing_failure" \/ e.is_signing_failure, "C10.signing_failure_identifiable")
-            \cup (IF e.tlc.outcome = "signing_failure" /\ e.obs.outcome = "built" /\ ~kf THEN {"C06.no_success_when_signing_cannot_be_done"} ELSE {}),
+            \cup (IF e.tlc.outcome = "signing_failure" /\ e.obs.outcome = "built" THEN {"C06.no_success_when_signing_cannot_be_done"} ELSE {}),
             IF agrees /\ prefers THEN {"DOC.signing_key_preference_differs:" \o e.argv.fmt} ELSE {},
             IF HasPrefix(e.err, "parse:") THEN {"harness_parse"} ELSE {})
   /\ UNCHANGED <<cid, ncases, x>>
